@@ -8,7 +8,7 @@ LEVEL = "other"
 EXPLANATION = (
     "Must-pass-through and data-dependence rules on IpGenerator and the DHCP pair: (G-BLOCK) every Some(net) returned "
     "by fetch_net is preceded on its path by block_subnet(net) of the same value, which lies inside the available "
-    "range just tested, and fetch_ip is fetch_net(/32); (G-ENDS) new_sub offers (net.id(), net.broadcast()) and "
+    "range just tested, and fetch_ip is fetch_net(/32); (G-SCAN) block_range visits every free range (no early-terminating or skipping iterator adaptor, no break) and splits those that overlap the blocked one, which is what keeps nested free ranges consistent; (G-ENDS) new_sub offers (net.id(), net.broadcast()) and "
     "new_sub_no_ends offers (net.id()+1, net.broadcast()-1); (D-LEASE) the server's Offer carries fetch_ip()'s result, "
     "its Ack echoes the Request's address, Release returns the released address to the generator; the client's "
     "Request echoes the Offer and the address it stores is the Ack's. Not decided: uniqueness over arbitrary "
@@ -77,6 +77,53 @@ def run(ctx):
             e = dep.tree_str(dep.expr_tree(b, K.agg_field_operand(ag[0][1], "end"), 10))
             okk = (s, e) == ("id(net)", "broadcast(net)")
     (ctx.ok if okk else ctx.bad)("G-BLOCK", "G-BLOCK:IpRange::from(Ipv4Net)", cands[0].span if cands else fn.span, "range of a network = (id, broadcast)" if okk else "IpRange::from(Ipv4Net) is not (net.id(), net.broadcast())")
+
+    # ---------------------------------------------------------------- G-SCAN
+    # block_range must split *every* free range that overlaps the blocked one. Free ranges may nest (return_range just
+    # inserts), so overlapping ranges need not be neighbours in the ordered set: the scan has to be exhaustive.
+    br = prog.method("IpGenerator", "block_range")
+    scope = [br] + [prog.bodies[k] for k in _closures_of(prog, br.key)]
+    EARLY = {"take_while", "skip_while", "take", "skip", "find", "find_map", "position", "rposition", "nth", "nth_back", "step_by", "range", "range_mut",
+             "split_off", "first", "last", "pop_first", "pop_last", "map_while", "scan", "try_for_each", "try_fold", "any", "all", "next_back"}
+    probs = []
+    scans = 0
+    for b in scope:
+        bg = cfg(b)
+        for bb, t in K.calls(b):
+            ck = F.callee_key(t) or ""
+            decl = (F.callee(t) or {}).get("fn", "")
+            nm = ck.rsplit("::", 1)[-1]
+            dnm = decl.rsplit("::", 1)[-1]
+            if not F.call_args(t):
+                continue
+            o = dep.arg_origins(b, bb, 0)
+            from_free = dep.has_field(o, "IpGenerator", "available_ranges") or dep.has_call(o, "ip_generator::{impl#0}::available")
+            if not from_free:
+                continue
+            if nm in EARLY or dnm in EARLY:
+                probs.append("the free ranges are scanned with %s (%s): overlapping ranges that are not adjacent in the set (nested free ranges after returns) are never split and stay available" % (dnm or nm, F.call_loc(t)))
+            if dnm == "next" and "Iterator" in decl:
+                scans += 1
+                # the loop over the free ranges is left only when the iterator is exhausted
+                d = F.call_dest(t)
+                sw = None
+                for s_ in range(len(b.blocks)):
+                    if b.term(s_)[0] == "switch":
+                        c = dep.switch_condition(b, s_)
+                        if c and c["kind"] == "discr" and c["place"][0] == d[0]:
+                            sw = s_
+                if sw is not None:
+                    none_arm = K.skip_false_edges(b, dep.switch_target(b, sw, 0))
+                    some_arm = K.skip_false_edges(b, dep.switch_target(b, sw, 1))
+                    if not bg.all_paths_through(some_arm, bg.returns, [bb]):
+                        probs.append("the scan of the free ranges can stop before the set is exhausted (break at %s)" % F.call_loc(t))
+    filt = [1 for b in scope for bb, t in K.calls(b) if (F.callee(t) or {}).get("fn", "").endswith("Iterator::filter") or (F.callee(t) or {}).get("fn", "").endswith("Iterator::collect")]
+    ctx.require(scans + len(filt) >= 1, "G-SCAN: no scan of the free ranges found in block_range")
+    ov = [1 for b in scope for bb, t in K.calls(b) if (F.callee_key(t) or "").endswith("::overlaps")]
+    if not ov:
+        probs.append("block_range no longer selects the free ranges by overlaps(range)")
+    (ctx.bad if probs else ctx.ok)("G-SCAN", "G-SCAN:block_range", br.span, "; ".join(probs) if probs else
+        "every free range is visited and those overlapping the blocked range are split (exhaustive scan)")
 
     # ---------------------------------------------------------------- G-ENDS
     ns = prog.method("IpGenerator", "new_sub")
@@ -219,3 +266,16 @@ def _lease_client(prog, cd):
         if not dep.has_field(vo, "DhcpMessage", "your_ip") or not dep.has_call(vo, "dhcp_parsing::{impl#1}::from_bytes"):
             probs.append("the address stored is not the Ack's your_ip")
     return probs
+
+
+
+def _closures_of(prog, key, seen=None):
+    seen = seen if seen is not None else []
+    b = prog.bodies.get(key)
+    if b is None:
+        return seen
+    for bb, ck in K.closure_creations(b):
+        if ck not in seen:
+            seen.append(ck)
+            _closures_of(prog, ck, seen)
+    return seen
